@@ -293,7 +293,12 @@ class CallMixin:
 
     def uval_getattr(self, o, name, default=_MISSING):
         view = self.ctx.views.get(o.t.get_id()) if o.t is not None else None
-        if view is not None:
+        if view is None and o.t is not None:
+            for ci, pred in self.ctx.narrowed.get(o.t.get_id(), []):
+                if ci.is_dataclass and self.ctx.entails(pred):
+                    view = self.view_as(o, ci)
+                    break
+        if view is not None and view is not o:
             return self.getattr(view, name, default)
         if o.cls:
             h = self.abstract_attrs.get((o.cls, name))
@@ -377,6 +382,7 @@ class CallMixin:
                     if r is not None:
                         return r
                 f = self.ctx.fn("is_" + c.ci.name, U, z3.BoolSort())
+                self.ctx.narrowed.setdefault(v.t.get_id(), []).append((c.ci, f(v.t)))
                 return SBool(f(v.t), True)
             return False
         name = c.name if isinstance(c, Builtin) else (c.path.split(".")[-1] if isinstance(c, ExtRef) else None)
